@@ -2,6 +2,7 @@ import Model.ValueSpec
 import Model.MarshalInterp
 import Model.MarshalRepresent
 import Model.MarshalHeap
+import Model.MarshalMemo
 import Driver.Util
 namespace Driver.C12
 open Util
@@ -27,6 +28,7 @@ ops:
   cls p T V          → undocumented | excluded | clean                                (the `_partial` hypothesis)
   dec p T hex|null GT     → ok V' | err | crash | unmodelled             (model of gocql.Unmarshal)
   specdec p T hex GT      → ok V' | err | nonconformant | unmodelled     (SPEC: represent (specDec bytes))
+  hist ; p T V ; p T V …  → a ; a ; …   each call of a sequence made in one process, answered like `spec`
 Printed values carry no Go types; map entries are sorted by their printed key.
 -/
 
@@ -548,6 +550,16 @@ def runConn (steps : List (List String)) : String :=
         | some _ => showHeld s k
         | none => "null"))
 
+/-- `hist ; p T V ; p T V ; …`: a sequence of Marshal calls made in ONE process (the same Go type for several type
+    descriptions: look-alike UDT definitions, tuples of different arity, collections with different element types);
+    every call is answered by the SPECIFICATION from its own (type, value) — the stateless process
+    `MarshalMemo.pureRun` (C12_history_independent) -/
+def runHist (steps : List (List String)) : String :=
+  let calls := steps.map parseTV3
+  if calls.any Option.isNone then "bad-op" else
+  " ; ".intercalate (MarshalMemo.pureRun (fun c : Nat × CqlTy × GoVal => specAnswer c.1 c.2.1 c.2.2) ()
+    (calls.filterMap id))
+
 def step (_ : Unit) (ws : List String) : Unit × String :=
   ((), match ws with
   | "enc" :: r => runTV (fun p t g => showM (marshal p t g)) r
@@ -557,6 +569,7 @@ def step (_ : Unit) (ws : List String) : Unit × String :=
   | "specdec" :: r => runDec (fun p t data ty => match data with
       | some b => specDecAnswer p t b ty
       | none => "bad-op") r
+  | "hist" :: ";" :: r => runHist (splitSteps r)
   | "held" :: _ :: r => runHeld (splitSteps r)
   | "conn" :: _ :: _ :: ";" :: r => runConn (splitSteps r)
   | _ => "bad-op")
